@@ -353,7 +353,9 @@ namespace optree {
                     << NodeKindToString(root) << ", got: " << NodeKindToString(other_root) << ".";
                 throw py::value_error(oss.str());
             }
-            if (!root.custom->type.is(other_root.custom->type)) [[unlikely]] {
+            // NOTE: compare the registrations like `==`, `is_prefix()` and `flatten_up_to()` do: the
+            // same type registered in two namespaces may have different flatten/unflatten functions.
+            if (root.custom != other_root.custom) [[unlikely]] {
                 std::ostringstream oss{};
                 oss << "Custom node type mismatch; expected type: " << NodeKindToString(root)
                     << ", got type: " << NodeKindToString(other_root) << ".";
